@@ -42,14 +42,14 @@ from ..rtx import EPS, FWD, INV, LIB, ev, mp
 PROP = "C03"
 
 CALIBRATION = """
-thorough tier, VERIF_SEED=0 (pinned tree with the 14 fixes): 5.35e6 float observations, all
+thorough tier, VERIF_SEED=0 (pinned tree with the 14 fixes): 4.10e6 float observations, all
 accepted (apart from the Knowles end-point finding).  99.2 % have a relative error below 1e-12
 (3 orders of magnitude below the 1e-9 test, accepted without looking at B); for the other
-4.2e4 (inverse maps / inverse derivatives where the forward map is flat, 1 - exp(-u) for tiny u,
-values at zeros of a derivative) B was computed: largest err / max(1e-9 |f|, 1e3 B) = 2e-4
-(quick tiers, seeds 0-2: 2.0e-4, 2.0e-4, 1.8e-4), i.e. 3.7 orders of magnitude of slack.
-The mutants of selftest() produce relative errors >= 2.4e-3 (7 orders of magnitude above the
-accepted errors); all 16 are reported.
+3.3e4 (inverse maps / inverse derivatives where the forward map is flat, 1 - exp(-u) for tiny u,
+values at zeros of a derivative) B was computed: largest err / max(1e-9 |f|, 1e3 B) = 3.3e-4
+(quick tier, seeds 0, 1, 2: 2.8e-4, 2.0e-4, 2.4e-4), i.e. 3.5 orders of magnitude of slack.
+The 16 mutants of selftest() produce relative errors >= 2.4e-3 (7 orders of magnitude above the
+accepted errors of well-conditioned points); all are reported.
 """
 
 _G = {}  # emission etc. for forked workers
